@@ -49,7 +49,19 @@ func runC11Concurrent(c *eng.Ctx, next func() (int, bool)) {
 							continue
 						}
 						c.R.Begin(idx)
-						closeVsClose(c, idx, spec, m, lc, c2, viaCancel, j)
+						closeVsClose(c, idx, spec, m, lc, c2, viaCancel, j, 3)
+					}
+					if c2 == "provider" {
+						// the scope being closed is a top-level scope: nothing but the provider's own
+						// bookkeeping makes provider.Close wait for it
+						for j := 1; j <= 5; j++ {
+							idx, mine := next()
+							if !mine {
+								continue
+							}
+							c.R.Begin(idx)
+							closeVsClose(c, idx, spec, m, lc, c2, viaCancel, j, 1)
+						}
 					}
 				}
 			}
@@ -57,18 +69,29 @@ func runC11Concurrent(c *eng.Ctx, next func() (int, bool)) {
 	}
 }
 
-func closeVsClose(c *eng.Ctx, idx int, spec *core.Spec, m *core.Model, leafCtx int, closer2 string, viaCancel bool, j int) {
+func closeVsClose(c *eng.Ctx, idx int, spec *core.Spec, m *core.Model, leafCtx int, closer2 string, viaCancel bool, j int, depth int) {
 	r := core.NewRun(spec, m, nil, nil)
 	r.Build()
 	if !r.Built {
 		c.R.End(idx, eng.Hash("c11c-unbuilt"), false)
 		return
 	}
-	gp := r.Do(core.Op{Kind: core.OpCreate, Scope: 0, CtxKind: 2}).NewScope
-	par := r.Do(core.Op{Kind: core.OpCreate, Scope: gp, CtxKind: 0}).NewScope
-	leaf := r.Do(core.Op{Kind: core.OpCreate, Scope: par, CtxKind: leafCtx}).NewScope
-	for _, sc := range []int{leaf, par, gp, 0} {
-		core.ProbeRegistered(r, sc)
+	var gp, par, leaf int
+	if depth == 1 {
+		// a sibling keeps the provider's scope list non-trivial
+		gp = r.Do(core.Op{Kind: core.OpCreate, Scope: 0, CtxKind: 2}).NewScope
+		par = gp
+		leaf = r.Do(core.Op{Kind: core.OpCreate, Scope: 0, CtxKind: leafCtx}).NewScope
+		for _, sc := range []int{leaf, gp, 0} {
+			core.ProbeRegistered(r, sc)
+		}
+	} else {
+		gp = r.Do(core.Op{Kind: core.OpCreate, Scope: 0, CtxKind: 2}).NewScope
+		par = r.Do(core.Op{Kind: core.OpCreate, Scope: gp, CtxKind: 0}).NewScope
+		leaf = r.Do(core.Op{Kind: core.OpCreate, Scope: par, CtxKind: leafCtx}).NewScope
+		for _, sc := range []int{leaf, par, gp, 0} {
+			core.ProbeRegistered(r, sc)
+		}
 	}
 	var leafG int64 = -1
 	var gmu sync.Mutex
@@ -119,6 +142,9 @@ func closeVsClose(c *eng.Ctx, idx int, spec *core.Spec, m *core.Model, leafCtx i
 	done := make(chan struct{})
 	go func() { wg.Wait(); close(done) }()
 	feat := fmt.Sprintf("leaf-%s-vs-%s", map[bool]string{false: "close", true: "cancel"}[viaCancel], closer2)
+	if depth == 1 {
+		feat = fmt.Sprintf("top-level-scope-%s-vs-provider", map[bool]string{false: "close", true: "cancel"}[viaCancel])
+	}
 	if v := awaitOrDiagnose(done, 60*time.Second); !v.Done {
 		if v.Deadlock {
 			c.R.Violation(eng.Violation{Prop: "C11", Clause: "hang", Sig: "C11/hang:" + feat + ":" + innermostGodiFn(v.Dump), Case: idx, CaseID: feat, Detail: "overlapping Close calls never returned; goroutines stuck inside godi:\n" + v.Dump})
@@ -148,5 +174,5 @@ func closeVsClose(c *eng.Ctx, idx int, spec *core.Spec, m *core.Model, leafCtx i
 	if c.R.WantSample() && parked && j == 2 {
 		c.R.Sample(core.SampleOf(r, map[string]any{"kind": "close-vs-close", "scenario": feat, "leaf_ctx": leafCtx, "parked_at_close": j}))
 	}
-	c.R.End(idx, eng.Hash("c11c", feat, leafCtx, j), parked && pairs >= 2)
+	c.R.End(idx, eng.Hash("c11c", feat, leafCtx, j, depth), parked && pairs >= 2)
 }
